@@ -114,16 +114,16 @@ struct Case {
 // Tracks blocks allocated by operator new while tracking is on (i.e. inside a case).  Tells leaks,
 // bounded growth and allocation counts.  Double frees / use after free are ASan's job in the asan flavour.
 struct Ledger {
-  static const size_t CAP = 1u << 18;  // open addressing table
+  static const size_t CAP = 1u << 17;  // open addressing table
   void* tab[CAP];
   size_t sz[CAP];
   size_t live = 0, liveBytes = 0, allocs = 0, frees = 0, peakBytes = 0;
   int on = 0, pause = 0;
-  size_t limitBytes = 512u << 20;
+  size_t limitBytes = 64u << 20;
   bool overflow = false;
   static size_t h(void* p) { return ((uintptr_t)p >> 4) * 0x9E3779B97F4A7C15ull >> 46; }
   void add(void* p, size_t n) {
-    if (live * 2 >= CAP) { overflow = true; return; }
+    if (live * 2 >= CAP) { overflow = true; liveBytes += n; ++allocs; return; }
     size_t i = h(p) & (CAP - 1);
     while (tab[i] && tab[i] != (void*)1) i = (i + 1) & (CAP - 1);
     tab[i] = p; sz[i] = n; ++live; liveBytes += n; ++allocs; if (liveBytes > peakBytes) peakBytes = liveBytes;
@@ -147,6 +147,8 @@ struct Ctx {
   std::map<std::string, uint64_t> counters;
   std::map<std::string, uint64_t> labelHist;
   std::set<std::string> exclude;  // active known-finding exclusions
+  std::map<std::string, std::string> opts;  // --opt key=value
+  std::string opt(const char* k, const char* dflt = "") const { auto it = opts.find(k); return it == opts.end() ? std::string(dflt) : it->second; }
   bool replay = false;
   bool verbose = false;
   std::string outdir = ".";
@@ -165,7 +167,7 @@ extern Ctx g_ctx;
 }  // namespace pbt
 
 // ---------------------------------------------------------------- harness interface
-extern const char* pbt_property;                                  // "C08"
+extern const char* pbt_property;                                  // "C08" (may be overridden with --prop when one harness serves several properties)
 extern const char* pbt_part;                                      // e.g. "buffer"
 void pbt_generate(pbt::Rng& rng, int size, pbt::Case& c);        // constructive generator
 void pbt_run(const pbt::Case& c, pbt::Ctx& ctx);                 // total interpreter + oracle; ctx.fail() on violation
@@ -261,7 +263,7 @@ static std::string read_file(const char* path) {
 }
 
 static int pbt_main(int argc, char** argv) {
-  uint64_t seed = 1; long w = 0, W = 1, cases = 1000, maxsize = 40; double timecap = 0; int alarm_s = 20;
+  uint64_t seed = 1; long w = 0, W = 1, cases = 1000, maxsize = 40; double timecap = 0; int alarm_s = 10;
   std::string out = ".", replay, excl;
   bool dump = false;
   for (int i = 1; i < argc; ++i) {
@@ -277,6 +279,8 @@ static int pbt_main(int argc, char** argv) {
     else if (a == "--time") timecap = atof(nx().c_str());
     else if (a == "--alarm") alarm_s = atoi(nx().c_str());
     else if (a == "--dump") dump = true;
+    else if (a == "--prop") { static std::string pp; pp = nx(); pbt_property = pp.c_str(); }
+    else if (a == "--opt") { std::string kv = nx(); size_t e = kv.find('='); if (e != std::string::npos) g_ctx.opts[kv.substr(0, e)] = kv.substr(e + 1); }
     else if (a == "--verbose") g_ctx.verbose = true;
   }
   Ctx& ctx = g_ctx;
@@ -293,7 +297,7 @@ static int pbt_main(int argc, char** argv) {
     std::string body = c.text();
     snprintf(g_hdr, sizeof g_hdr, "#prop %s\n#part %s\n", pbt_property, pbt_part);
     g_curtext = body.c_str(); g_curlen = body.size();
-    alarm(alarm_s * 3);
+    alarm(alarm_s * 2);
     run_one(c, true);
     alarm(0);
     std::string ls; for (auto& l : ctx.labels) { ls += l; ls += ' '; }
@@ -355,7 +359,7 @@ static inline void* pbt_alloc(size_t n) {
   pbt::Ledger& L = pbt::g_ledger;
   if (L.on && !L.pause) {
     L.add(p, n);
-    if (L.liveBytes > L.limitBytes) { L.on = 0; pbt::g_ctx.fail("unbounded-growth", "more than 512 MiB live inside one case"); }
+    if (L.liveBytes > L.limitBytes || L.overflow) { L.on = 0; pbt::g_ctx.fail("unbounded-growth", "allocation limit of the case exceeded (unbounded growth)"); }
   }
   return p;
 }
